@@ -90,6 +90,11 @@ pub fn run(id: &str) -> i32 {
             let mut e = plain.clone(); e.extrapolate(d(3));
             e.number_arrivals(d(4)) > plain.number_arrivals(d(4))
         }
+        // KF13: extrapolating a cumulative-cost prefix that is not sub-additive yields a NON-MONOTONE cost function
+        "KF13" => {
+            let x = wcet::ExtrapolatingCurve::new(wcet::Curve::new(vec![s(1), s(1), s(3)]));
+            x.cost_of_jobs(4) < x.cost_of_jobs(3)
+        }
         _ => { eprintln!("unknown witness {}", id); return 2; }
     };
     println!("{} {}", id, if reproduces { "reproduces" } else { "does not reproduce" });
